@@ -333,7 +333,11 @@ class Application(object):
         if isinstance(ret, HTTPException):
             error_params = dict(params, _error=ret)
             try:
-                ret = ret.source_route.execute_error(**error_params)
+                err_resp = ret.source_route.execute_error(**error_params)
+                if not isinstance(err_resp, BaseResponse):
+                    msg = 'expected Response, received %r' % type(err_resp)
+                    raise TypeError(msg)
+                ret = err_resp
             except Exception:
                 ret = default_render_error(**error_params)
         return ret
